@@ -693,3 +693,13 @@ class Copier:
         for (name, flag, text) in rows:
             self._emit(name, flag, text)
         return len(self.log)
+
+
+from itertools import groupby, chain
+from operator import itemgetter
+
+
+def f_pure_imports():
+    runs = tuple((c, sum(1 for _ in run)) for (c, run) in groupby('aaabccdd'))
+    pairs = sorted(((name, pos) for pos, name in enumerate('zxy')), key=itemgetter(0))
+    return runs, pairs, list(chain([1], (2, 3))), itemgetter(1)(('a', 'b'))
